@@ -59,6 +59,46 @@ pub fn split_file(data: &[u8]) -> Result<Value, String> {
     Ok(json!({"header": bytes(&data[0..32]), "chunks": chunks, "trailing": data.len() - pos, "size": data.len()}))
 }
 
+/// rbx_binary's debugging decoder (`text_format::DecodedModel`, what `rbx_util view-binary` prints), with its
+/// chunk list reshaped into uniform records; values are left out, the structure is what TextView checks.
+pub fn text_view(data: &[u8]) -> Value {
+    let r = std::panic::catch_unwind(|| serde_json::to_value(rbx_binary::text_format::DecodedModel::from_reader(data)));
+    let model = match r {
+        Ok(Ok(v)) => v,
+        Ok(Err(e)) => return json!({"outcome": "err", "detail": e.to_string()}),
+        Err(p) => return json!({"outcome": "panic", "detail": panic_msg(p)}),
+    };
+    let mut chunks = Vec::new();
+    for ch in model["chunks"].as_array().cloned().unwrap_or_default() {
+        if ch.as_str() == Some("End") {
+            chunks.push(json!({"k": "END"}));
+            continue;
+        }
+        let (tag, body) = match ch.as_object().and_then(|o| o.iter().next()) {
+            Some((t, b)) => (t.clone(), b.clone()),
+            None => {
+                chunks.push(json!({"k": "?"}));
+                continue;
+            }
+        };
+        let sb = |v: &Value| bytes(v.as_str().unwrap_or("").as_bytes());
+        chunks.push(match tag.as_str() {
+            "Meta" => json!({"k": "META", "entries": body["entries"].as_array().map(|a| a.iter().map(|e| json!([sb(&e[0]), sb(&e[1])])).collect::<Vec<_>>()).unwrap_or_default()}),
+            "Sstr" => json!({"k": "SSTR", "version": body["version"], "lens": body["entries"].as_array().map(|a| a.iter().map(|e| e["len"].clone()).collect::<Vec<_>>()).unwrap_or_default()}),
+            "Inst" => json!({"k": "INST", "id": body["type_id"], "class": sb(&body["type_name"]), "format": body["object_format"], "refs": body["referents"]}),
+            "Prop" => json!({"k": "PROP", "id": body["type_id"], "name": sb(&body["prop_name"]),
+                             "type": body["prop_type"].as_str().unwrap_or("?"),
+                             "has_values": body.get("values").map(|v| !v.is_null()).unwrap_or(false)}),
+            "Prnt" => json!({"k": "PRNT", "version": body["version"],
+                             "child": body["links"].as_array().map(|a| a.iter().map(|l| l[0].clone()).collect::<Vec<_>>()).unwrap_or_default(),
+                             "parent": body["links"].as_array().map(|a| a.iter().map(|l| l[1].clone()).collect::<Vec<_>>()).unwrap_or_default()}),
+            "Unknown" => json!({"k": "UNKNOWN", "name": body["name"]}),
+            _ => json!({"k": "?"}),
+        });
+    }
+    json!({"outcome": "ok", "num_types": model["num_types"], "num_instances": model["num_instances"], "chunks": chunks})
+}
+
 pub fn compression_name(c: CompressionType) -> &'static str {
     match c {
         CompressionType::None => "none",
@@ -109,6 +149,9 @@ pub fn bin_event_modes(ep: &str, dom: &WeakDom, roots: &[Ref], with_bytes: bool,
                     match split_file(&data) {
                         Ok(f) => m["file"] = f,
                         Err(e) => m["file"] = json!({"broken": e}),
+                    }
+                    if std::env::var("RBXV_TEXT_VIEW").is_ok() {
+                        m["view"] = text_view(&data);
                     }
                 } else {
                     m["file"] = json!({"skipped": 1});
